@@ -264,7 +264,9 @@ def run_property(prop, tier, *, jobs=None, only=None, verbose=False,
                     if any(o["status"] == "unknown" for _, o in v)
                     and k not in refuted_keys]
     for k in unknown_keys:
-        undecided.append(f"{k}: solver returned unknown")
+        o = next(o for _, o in by_key[k] if o["status"] == "unknown")
+        undecided.append(f"{k}: solver returned unknown ({o['backend']}, "
+                         f"{o['seconds']}s, reason: {o.get('reason')})")
 
     # canaries: every one must be refuted on its clause
     canary_ok = 0
@@ -357,6 +359,11 @@ def run_property(prop, tier, *, jobs=None, only=None, verbose=False,
         for fl in ex.get("failures", []):
             key = f"{ex['name']}|{fl['key']}"
             kf = known_match(known, prop, key)
+            if kf is None and ex.get("name") == "replay-sample":
+                # an instance-level replay started from a path on which the
+                # clause held may still run into the listed finding of the
+                # same clause and instance
+                kf = known_match(known, prop, fl["key"])
             if kf is not None:
                 known_hits.append(dict(key=key, what=kf["what"]))
                 lines.append(f"KNOWN-FINDING: property={prop} {kf['what']} "
